@@ -43,6 +43,15 @@ int main(int argc, char** argv) {
         t.withdraw_contact(chunk, mk(1).id);
         const auto r = t.find_providers(chunk);
         if (count(r, 1) != 0 || count(r, 2) != 1) { std::printf("REPRODUCED: after withdrawing A the lookup lists A %d times, B %d times\n", count(r, 1), count(r, 2)); return 1; }
+        // a withdrawal must not make the next sweep drop live providers: A 1 h, B 0 s, C 1 h; withdraw C; sweep -> exactly A
+        KademliaTable t2(self);
+        t2.add_contact(chunk, mk(1), seconds(3600));
+        t2.add_contact(chunk, mk(2), seconds(0));
+        t2.add_contact(chunk, mk(3), seconds(3600));
+        t2.withdraw_contact(chunk, mk(3).id);
+        t2.sweep_expired();
+        const auto r2 = t2.find_providers(chunk);
+        if (count(r2, 1) != 1 || r2.size() != 1) { std::printf("REPRODUCED: A (1 h), B (0 s), C (1 h) announced, C withdrawn, sweep: the lookup returns %zu providers, A %d times\n", r2.size(), count(r2, 1)); return 1; }
     } else if (scn != "sweep" && scn != "add") return 2;
     std::printf("provider history '%s' as required\n", scn.c_str());
     return 0;
